@@ -59,6 +59,17 @@ CLAIMED = {
          "Trusted: the PostgreSQL lexer of harness/sqlrec (standard_conforming_strings=on); jsonpath/JSON content inside a string constant is not inspected.",
          "DESIGN.md 5/C20"),
 
+ "C09": ("HTTPSIM", "exploration",
+         "property-based testing through four entry points (Commander, v2, v1, bulk) over a real Commander and the model store; exact-equality oracle on answer and persisted entry, no-trace oracle on rejection",
+         "Generated posting lists (full address/asset grammar, repeated accounts and monetaries, chains, 0 and >64-bit amounts, metadata, reference, timestamps, invalid variants) are submitted for real; a success must commit exactly the request, a rejection must leave nothing.",
+         "Trusted: model store in place of PostgreSQL; sequential requests. One known finding listed (zero instant taken as 'no timestamp').",
+         "DESIGN.md 5/C09"),
+ "C17": ("SQLREC", "exploration",
+         "model-based property testing of pagination over a mini SQL engine: generated collections / page sizes / orders / filters walked through bunpaginate, ledgerstore and the HTTP handlers; enumeration, previous-page and filter-preservation oracles",
+         "Generated collections are served by a mini SQL engine behind the real bun/ledgerstore/handler code; following next must enumerate the filtered collection exactly once in order, previous must give the page before, and every statement of a walk must carry the first request's filter.",
+         "Trusted: the mini engine's reading of WHERE conjuncts / ORDER BY / LIMIT / OFFSET (unknown statement shapes abort the case as a harness error).",
+         "DESIGN.md 5/C17"),
+
  "C02": ("ENGINE-SIM", "exploration",
          "stateful property-based testing with a harness-owned scheduler (rapid + testing/synctest); invariant over the persisted history (independent fold, per-debit floor)",
          "Generated sets of concurrent creates/reverts run on the real Commander/locker/batcher under generated interleavings; the persisted log is folded independently and every debit must respect the balance at its log position. Exploration: many histories x schedules, no exhaustiveness.",
@@ -140,9 +151,9 @@ def main():
     open("MANIFEST.json", "a").write("\n")
 
 ENGINES = [
- {"name": "SQLREC", "path": "harness/sqlrec", "serves_properties": ["C04", "C20"], "kind_free_text": "recording database/sql driver behind bun + PostgreSQL lexer"},
+ {"name": "SQLREC", "path": "harness/sqlrec", "serves_properties": ["C04", "C17", "C20"], "kind_free_text": "recording database/sql driver behind bun + PostgreSQL lexer + mini result engine"},
  {"name": "LOCKSIM", "path": "harness/checks/c15_test.go", "serves_properties": ["C15"], "kind_free_text": "real DefaultLocker in a synctest bubble driven by generated action lists"},
- {"name": "HTTPSIM", "path": "harness/httpsim", "serves_properties": ["C18", "C19"], "kind_free_text": "real chi routers over a recording fake backend, served with httptest"},
+ {"name": "HTTPSIM", "path": "harness/httpsim", "serves_properties": ["C09", "C17", "C18", "C19", "C20"], "kind_free_text": "real chi routers over a recording fake backend, served with httptest"},
  {"name": "NUMGEN", "path": "harness/numgen", "serves_properties": ["C01", "C03", "C08", "C12"], "kind_free_text": "Numscript AST, typed and loose generators, printer, reference interpreter"},
  {"name": "ENGINE-SIM", "path": "harness/enginesim", "serves_properties": ["C02", "C05", "C06", "C07", "C10", "C11", "C14", "C16"], "kind_free_text": "deterministic schedule/crash/fault simulation of command.Commander in a synctest bubble + history oracles"},
  {"name": "LOGRT", "path": "harness/checks/c13_test.go", "serves_properties": ["C13"], "kind_free_text": "rapid generators + round-trip / metamorphic oracles"},
